@@ -1,1 +1,359 @@
-/-! Property theorems for C19 (only property-level statements and non-vacuity examples live here). -/
+import SpoxModel.Lemmas.Subgraph
+import SpoxModel.Generated.SubgraphSpecs
+import SpoxModel.Generated.CallbackSites
+/-!
+# C19 — subgraph callbacks run exactly once, with the prescribed arguments
+
+Property theorems only. The specs of the control-flow constructors (`Generated.SubgraphSpecs`) and
+the callback call sites (`Generated.CallbackSites`) are the ones *extracted from /repo on this run*;
+`generated_good`, `generator_consistent`, `modules_covered` and `sites_good` are the obligations that
+tie the general theorems to the source.
+
+The ONNX prescription (`Model/SubgraphSpec.lean`) is written from the ONNX specification.
+Two statements are false of the code as it is and are kept visible:
+* Loop declares iteration number and condition with shape `[1]`, ONNX says scalars (pinned by the
+  repo's tests) — `args_prescribed_loop_partial` + `loop_scalar_counterexample`;
+* Scan ignores `scan_input_axes` when typing the body's scan inputs —
+  `args_prescribed_scan_partial` (default / all-zero axes) + `scan_axes_counterexample`.
+-/
+namespace C19
+open Subgraph SubgraphSpec SubgraphLemmas
+open Generated.SubgraphSpecs
+
+/-! ## Obligations on the generated data -/
+
+/-- The accepted specs of each constructor name. -/
+def accepted (ctor : String) : List CtorSpec :=
+  if ctor = "if_" then [ifSpec, ifSpecSwapped]
+  else if ctor = "loop" then [loopSpecWith (some [.n 1])]
+  else if ctor = "scan" then [scanSpec]
+  else if ctor = "sequence_map" then [seqMapSpec]
+  else []
+
+/-- Every function of the shipped `ai.onnx` modules that calls `subgraph` is one of the four
+    control-flow constructors and has the accepted spec. -/
+theorem generated_good : table.all (fun e => (accepted e.2.1).contains e.2.2) = true := by decide
+
+/-- The source strings in `tools/generate_opset.py` say the same as the generated modules. -/
+theorem generator_consistent :
+    genTable.all (fun e => (accepted e.1).contains e.2) = true
+      ∧ ctorNames.all (fun c => genTable.any (fun e => e.1 == c)) = true := by decide
+
+/-- Every control-flow constructor of every shipped module resolves to a function in `table`. -/
+theorem modules_covered :
+    resolves.all (fun r => table.any (fun e => e.1 == r.2.2 && e.2.1 == r.2.1)) = true
+      ∧ (resolves.map (·.1)).eraseDups.all
+          (fun m => ctorNames.all (fun c => resolves.any (fun r => r.1 == m && r.2.1 == c))) = true := by
+  decide
+
+/-- Call sites, other than `subgraph`, that could reach a stored callback — from the source. -/
+def extra : List String :=
+  extraSites Generated.CallbackSites.invokers Generated.CallbackSites.reconstructCallers
+    Generated.CallbackSites.constructorReaders Generated.CallbackSites.subgraphCallers
+    Generated.CallbackSites.opsetModules
+
+/-- Nothing but `subgraph` (called by the control-flow constructors) invokes a callback; nothing
+    calls `_reconstruct` or reads `_constructor`. -/
+theorem sites_good : extra = [] ∧ "spox._graph.subgraph" ∈ Generated.CallbackSites.invokers := by
+  decide
+
+theorem spec_of_table {m c : String} {s : CtorSpec} (h : (m, c, s) ∈ table) : s ∈ accepted c := by
+  have := List.all_eq_true.1 generated_good (m, c, s) h
+  simpa using this
+
+/-! ## `args_prescribed` -/
+
+/-- **If** (every shipped module): each branch is called exactly once, with no arguments (the log
+    grows by exactly these two events, in the order of the two `subgraph(…)` calls in the source). -/
+theorem args_prescribed_if {m : String} {s : CtorSpec} (h : (m, "if_", s) ∈ table)
+    (env : Env) (cbs : Callbacks) (w : World) (n1 n2 : Nat)
+    (h1 : (cbs "else_branch").2 = .returnsVars n1) (h2 : (cbs "then_branch").2 = .returnsVars n2) :
+    let eT : Event := ⟨(cbs "then_branch").1, [], ifPresc⟩
+    let eE : Event := ⟨(cbs "else_branch").1, [], ifPresc⟩
+    (construct s env cbs w).2 = ⟨eT :: eE :: w.events, w.fresh⟩
+      ∨ (construct s env cbs w).2 = ⟨eE :: eT :: w.events, w.fresh⟩ := by
+  have hs := spec_of_table h
+  simp only [accepted, if_true, List.mem_cons, List.not_mem_nil, or_false] at hs
+  rcases hs with rfl | rfl
+  · exact Or.inl (construct_if_world env cbs w n1 n2 h1 h2)
+  · exact Or.inr (construct_if_world_swapped env cbs w n1 n2 h1 h2)
+
+/-- **SequenceMap** (every shipped module), any element type, any number of additional inputs, each a
+    sequence or a tensor of any dtype / shape / rank: the body is called exactly once with fresh
+    arguments typed `(element of input_sequence, then per additional input its element type /
+    the tensor type itself)`. -/
+theorem args_prescribed_sequence_map {m : String} {s : CtorSpec} (h : (m, "sequence_map", s) ∈ table)
+    (env : Env) (elem : Ty) (extra : List SMOperand)
+    (hs : env.singles "input_sequence" = some (.seq elem))
+    (hl : env.lists "additional_inputs" = extra.map (fun o => some o.ty))
+    (cbs : Callbacks) (hc : (cbs "body").2.callable = true) (w : World) :
+    (construct s env cbs w).2
+      = ⟨⟨(cbs "body").1, freshIds w.fresh (seqMapPresc elem extra).length, seqMapPresc elem extra⟩
+            :: w.events,
+          w.fresh + (seqMapPresc elem extra).length⟩ := by
+  have hs' : s = seqMapSpec := by
+    have := spec_of_table h; simpa [accepted] using this
+  subst hs'
+  exact construct_single_world "body" seqMapTypes "body" 0 env cbs w _
+    (eval_seqMap env elem extra hs hl) hc
+
+/-- **Scan** (every shipped module), any number of operands of any dtype / shape / rank, any
+    `num_scan_inputs ≤` their number: the `N = len − num_scan_inputs` states come first with their
+    type unchanged, then the scan inputs without their scan axis — for the default scan axes
+    (attribute omitted or all 0). *Partial*: for other `scan_input_axes` see `scan_axes_counterexample`. -/
+theorem args_prescribed_scan_partial {m : String} {s : CtorSpec} (h : (m, "scan", s) ∈ table)
+    (env : Env) (ops : List TensorT) (k : Nat) (hk : k ≤ ops.length)
+    (hl : env.lists "initial_state_and_scan_inputs" = ops.map (fun t => some t.ty))
+    (hi : env.ints "num_scan_inputs" = (k : Int))
+    (axes : Option (List Int)) (hax : ∀ l, axes = some l → ∀ a ∈ l, a = 0)
+    (cbs : Callbacks) (hc : (cbs "body").2.callable = true) (w : World) :
+    (construct s env cbs w).2
+      = ⟨⟨(cbs "body").1, freshIds w.fresh (scanPresc ops k axes).length, scanPresc ops k axes⟩
+            :: w.events,
+          w.fresh + (scanPresc ops k axes).length⟩ := by
+  have hs' : s = scanSpec := by
+    have := spec_of_table h; simpa [accepted] using this
+  subst hs'
+  have hax' : scanPresc ops k axes = scanPresc ops k none := by
+    cases axes with
+    | none => rfl
+    | some l => simp [scanPresc, stripAxes_zeros _ l (hax l rfl)]
+  rw [hax']
+  exact construct_single_world "body" scanTypes "body" 0 env cbs w _
+    (eval_scan env ops k hk hl hi) hc
+
+/-- **Loop** (every shipped module), any number of carried values of any type (tensor, sequence,
+    optional): the body receives `(iteration: int64, condition: bool, carried types unchanged)`, in
+    this order. *Partial*: iteration number and condition are declared with shape `[1]`, where ONNX
+    prescribes scalars (`loop_scalar_counterexample`). -/
+theorem args_prescribed_loop_partial {m : String} {s : CtorSpec} (h : (m, "loop", s) ∈ table)
+    (env : Env) (carried : List Ty) (hl : env.lists "v_initial" = carried.map some)
+    (cbs : Callbacks) (hc : (cbs "body").2.callable = true) (w : World) :
+    (construct s env cbs w).2
+      = ⟨⟨(cbs "body").1, freshIds w.fresh (carried.length + 2),
+            loopPrescWith (some [.n 1]) carried⟩ :: w.events,
+          w.fresh + (carried.length + 2)⟩ := by
+  have hs' : s = loopSpecWith (some [.n 1]) := by
+    have := spec_of_table h; simpa [accepted] using this
+  subst hs'
+  have := construct_single_world "body" (loopTypes (some [.n 1])) "body" 1 env cbs w _
+    (eval_loop env (some [.n 1]) carried hl) hc
+  have hlen : (loopPrescWith (some [Dim.n 1]) carried).length = carried.length + 2 := by
+    simp [loopPrescWith]
+  rw [hlen] at this
+  exact this
+
+/-- What `args_prescribed_loop_partial` establishes agrees with ONNX's prescription in everything but
+    the declared shape of the first two arguments. -/
+theorem loop_partial_vs_onnx (carried : List Ty) :
+    (loopPrescWith (some [.n 1]) carried).length = (loopPresc carried).length
+      ∧ (loopPrescWith (some [.n 1]) carried).drop 2 = (loopPresc carried).drop 2
+      ∧ (loopPrescWith (some [.n 1]) carried).take 2 = [.tensor dtInt64 (some [.n 1]), .tensor dtBool (some [.n 1])]
+      ∧ (loopPresc carried).take 2 = [.tensor dtInt64 (some []), .tensor dtBool (some [])] := by
+  simp [loopPrescWith, loopPresc]
+
+private def envOf (lists : List (String × List Operand)) (singles : List (String × Operand))
+    (ints : List (String × Int)) : Env :=
+  ⟨fun nm => ((lists.find? (·.1 == nm)).map (·.2)).getD [],
+   fun nm => ((singles.find? (·.1 == nm)).map (·.2)).getD none,
+   fun nm => ((ints.find? (·.1 == nm)).map (·.2)).getD 0⟩
+
+private def f32 (sh : List Nat) : TensorT := ⟨1, some (sh.map .n)⟩
+
+/-- The full statement for Loop is false of the code: with no carried values the body is declared
+    `(int64[1], bool[1])`, ONNX says `(int64 scalar, bool scalar)`. -/
+theorem loop_scalar_counterexample :
+    evalList (envOf [("v_initial", [])] [] []) (loopTypes (some [.n 1])) ≠ .ok (loopPresc []) := by
+  decide
+
+/-- The full statement for Scan is false of the code: one scan input `float32[5,3]` scanned along
+    axis 1 must give the body a `float32[5]`; the code strips axis 0. -/
+theorem scan_axes_counterexample :
+    evalList (envOf [("initial_state_and_scan_inputs", [some (f32 [5, 3]).ty])] []
+        [("num_scan_inputs", 1)]) scanTypes
+      ≠ .ok (scanPresc [f32 [5, 3]] 1 (some [1])) := by
+  decide
+
+/-- The pinned tree's Scan (split applied to the wrong operands): a rank-1 state `float32[3]` and a
+    scan input `float32[5,3]` — the body was given `(float32[], float32)`. -/
+theorem scan_pinned_counterexample :
+    evalList (envOf [("initial_state_and_scan_inputs", [some (f32 [3]).ty, some (f32 [5, 3]).ty])] []
+        [("num_scan_inputs", 1)]) scanTypesPinned
+      ≠ .ok (scanPresc [f32 [3], f32 [5, 3]] 1 none) := by
+  decide
+
+/-- The pinned tree's SequenceMap: a tensor-typed additional input raised AttributeError. -/
+theorem sequence_map_pinned_counterexample :
+    evalList (envOf [("additional_inputs", [some (f32 [2]).ty])]
+        [("input_sequence", some (.seq (f32 [2]).ty))] []) seqMapTypesPinned
+      = .error .attributeError := by
+  decide
+
+/-! ## `args_fresh` -/
+
+/-- **Fresh arguments.** Over any history of constructor calls (any constructor spec, any operands,
+    any callbacks, failing or not) starting from the empty log: the arguments of one invocation are
+    pairwise distinct, and distinct from (larger than) every argument handed to any earlier
+    invocation. -/
+theorem args_fresh (calls : List (CtorSpec × Env × Callbacks)) :
+    Fresh (calls.foldl (fun w c => (construct c.1 c.2.1 c.2.2 w).2) ⟨[], 0⟩) := by
+  suffices h : ∀ w, Fresh w → Fresh (calls.foldl (fun w c => (construct c.1 c.2.1 c.2.2 w).2) w) from
+    h _ fresh_init
+  induction calls with
+  | nil => intro w hw; exact hw
+  | cons c rest ih => intro w hw; exact ih _ (construct_fresh c.1 c.2.1 c.2.2 w hw)
+
+/-! ## `called_once` -/
+
+/-- **Called once.** After a successful constructor call and *any* sequence of builds, inference
+    re-runs, value propagation and inspection, every callback has been invoked exactly as often as
+    it was passed to the constructor (once per role) — for the call sites as they are in /repo now. -/
+theorem called_once (spec : CtorSpec) (env : Env) (cbs : Callbacks) (w w1 : World) (node : Node)
+    (h : construct spec env cbs w = (.ok node, w1)) (steps : List Step) (c : Nat) :
+    (runSteps extra node steps w1).count c = w.count c + (cbIds cbs spec.subgraphs).count c := by
+  rw [sites_good.1, runSteps_nil]
+  unfold construct at h
+  generalize hrs : runSubgraphs env cbs spec.subgraphs w = r at h
+  obtain ⟨res, w'⟩ := r
+  cases res with
+  | error err => simp at h
+  | ok gs =>
+    simp only at h
+    cases hl : lookupGraph gs spec.outGraph with
+    | none => simp [hl] at h
+    | some g =>
+      simp only [hl, Prod.mk.injEq] at h
+      rw [← h.2]
+      exact runSubgraphs_count_ok env cbs _ _ _ _ hrs c
+
+/-- A fresh callback object passed in exactly one role has been called exactly once. -/
+theorem called_exactly_once (spec : CtorSpec) (env : Env) (cbs : Callbacks) (w w1 : World) (node : Node)
+    (h : construct spec env cbs w = (.ok node, w1)) (steps : List Step) (c : Nat)
+    (hnew : w.count c = 0) (hrole : (cbIds cbs spec.subgraphs).count c = 1) :
+    (runSteps extra node steps w1).count c = 1 := by
+  rw [called_once spec env cbs w w1 node h steps c, hnew, hrole]
+
+/-- Also when the constructor raises (a later callback is malformed, a type expression fails), no
+    callback has been invoked more often than it was passed. -/
+theorem called_at_most_once (spec : CtorSpec) (env : Env) (cbs : Callbacks) (w : World) (c : Nat) :
+    (construct spec env cbs w).2.count c ≤ w.count c + (cbIds cbs spec.subgraphs).count c := by
+  have := runSubgraphs_count_le env cbs spec.subgraphs w c
+  unfold construct
+  generalize runSubgraphs env cbs spec.subgraphs w = r at this
+  obtain ⟨res, w'⟩ := r
+  cases res with
+  | error err => exact this
+  | ok gs =>
+    simp only at this ⊢
+    cases lookupGraph gs spec.outGraph <;> exact this
+
+/-- Had a build path re-run the stored constructor (`_reconstruct`), one build after an If would
+    bring each branch to two invocations. -/
+theorem reconstruct_counterexample :
+    let cbs : Callbacks := fun nm => if nm = "else_branch" then (0, .returnsVars 1) else (1, .returnsVars 1)
+    let r := construct ifSpec (envOf [] [] []) cbs ⟨[], 0⟩
+    r.1.toOption.map (fun node =>
+      (runSteps ["spox._graph.Graph.to_onnx"] node [.build] r.2).count 0) = some 2 := by
+  decide
+
+/-! ## `out_count` -/
+
+/-- **Output count.** A successfully constructed node has as many outputs as the callback returned
+    Vars — minus one for Loop, whose first result is the condition. If uses `else_branch`'s count. -/
+theorem out_count {m c : String} {s : CtorSpec} (h : (m, c, s) ∈ table)
+    (env : Env) (cbs : Callbacks) (w w1 : World) (node : Node)
+    (hc : construct s env cbs w = (.ok node, w1)) :
+    ∃ n, (cbs (if c = "if_" then "else_branch" else "body")).2 = .returnsVars n
+      ∧ node.outVariadic = outCount (c == "loop") n := by
+  obtain ⟨n, hn, ho⟩ := construct_out s env cbs w w1 node hc
+  have hacc := spec_of_table h
+  unfold accepted at hacc
+  refine ⟨n, ?_, ?_⟩ <;> (split at hacc)
+  all_goals first
+    | (simp only [List.mem_cons, List.not_mem_nil, or_false] at hacc
+       rcases hacc with rfl | rfl <;> subst_vars <;>
+         simpa [outCount, ifSpec, ifSpecSwapped] using (by assumption))
+    | skip
+  all_goals (split at hacc)
+  all_goals first
+    | (simp only [List.mem_cons, List.not_mem_nil, or_false] at hacc; subst hacc; subst_vars
+       simpa [outCount, loopSpecWith] using (by assumption))
+    | skip
+  all_goals (split at hacc)
+  all_goals first
+    | (simp only [List.mem_cons, List.not_mem_nil, or_false] at hacc; subst hacc; subst_vars
+       simpa [outCount, scanSpec] using (by assumption))
+    | skip
+  all_goals (split at hacc)
+  all_goals first
+    | (simp only [List.mem_cons, List.not_mem_nil, or_false] at hacc; subst hacc; subst_vars
+       simpa [outCount, seqMapSpec] using (by assumption))
+    | (simp at hacc)
+
+/-! ## `bad_callbacks_typeerror` -/
+
+/-- **Malformed callbacks.** For any constructor whose type expressions evaluate: if every callback
+    either returns an iterable of Vars or is malformed (not callable / non-iterable result / result
+    containing a non-Var) and at least one is malformed, the call raises TypeError. -/
+theorem bad_callbacks_typeerror (spec : CtorSpec) (env : Env) (cbs : Callbacks) (w : World)
+    (hev : ∀ p ∈ spec.subgraphs, ∃ ts, evalList env p.2 = .ok ts)
+    (hgb : ∀ p ∈ spec.subgraphs, (cbs p.1).2.good = true ∨ (cbs p.1).2.bad = true)
+    (hex : ∃ p ∈ spec.subgraphs, (cbs p.1).2.bad = true) :
+    (construct spec env cbs w).1 = .error .typeError := by
+  have := runSubgraphs_bad env cbs spec.subgraphs w hev hgb hex
+  unfold construct
+  generalize runSubgraphs env cbs spec.subgraphs w = r at this
+  obtain ⟨res, w'⟩ := r
+  simp only at this
+  rw [this]
+
+/-- A non-callable callback is rejected without being called; a callable one with a malformed result
+    has been called (once) when the TypeError is raised. -/
+theorem bad_callback_invocations (types : List Ty) (cb : Nat) (beh : CbBehaviour) (w : World)
+    (hb : beh.bad = true) :
+    (subgraphCall types cb beh w).1 = .error .typeError
+      ∧ (subgraphCall types cb beh w).2.count cb = w.count cb + (if beh.callable then 1 else 0) := by
+  refine ⟨subgraphCall_bad types cb beh w hb, ?_⟩
+  rw [subgraphCall_count]
+  cases beh.callable <;> simp
+
+/-! ## Non-vacuity -/
+
+/-- Scan, two states and one scan input, rank ≥ 1 state: the hypotheses of
+    `args_prescribed_scan_partial` are satisfiable and the conclusion is the expected list. -/
+example :
+    let ops := [f32 [3], f32 [], f32 [5, 3]]
+    let env := envOf [("initial_state_and_scan_inputs", ops.map (fun t => some t.ty))] []
+      [("num_scan_inputs", 1)]
+    (v17_scan.subgraphs.map (fun p => evalList env p.2))
+      = [.ok [(f32 [3]).ty, (f32 []).ty, (f32 [3]).ty]]
+      ∧ scanPresc ops 1 none = [(f32 [3]).ty, (f32 []).ty, (f32 [3]).ty] := by
+  decide
+
+/-- SequenceMap with a sequence and a tensor as additional inputs. -/
+example :
+    let env := envOf [("additional_inputs", [some (.seq (f32 [2]).ty), some (f32 [4]).ty])]
+      [("input_sequence", some (.seq (f32 [7]).ty))] []
+    (v17_sequence_map.subgraphs.map (fun p => evalList env p.2))
+      = [.ok [(f32 [7]).ty, (f32 [2]).ty, (f32 [4]).ty]] := by
+  decide
+
+/-- A Loop over two carried values whose body returns 3 Vars has 2 outputs, and the callback was
+    called once — also after three builds. -/
+example :
+    let cbs : Callbacks := fun _ => (5, .returnsVars 3)
+    let env := envOf [("v_initial", [some (f32 [2]).ty, some (.seq (f32 []).ty)])] [] []
+    let r := construct v21_loop env cbs ⟨[], 0⟩
+    r.1.toOption.map (fun node => (node.outVariadic,
+        (runSteps extra node [.build, .infer, .build, .valueProp, .build] r.2).count 5)) = some (2, 1)
+      ∧ r.2.events.map (·.args) = [[0, 1, 2, 3]] := by
+  decide
+
+/-- A non-iterable result is a TypeError, after exactly one call. -/
+example :
+    let cbs : Callbacks := fun _ => (0, .nonIterable)
+    let r := construct v17_loop (envOf [("v_initial", [])] [] []) cbs ⟨[], 0⟩
+    r.1.toOption.isNone ∧ r.2.count 0 = 1 := by
+  decide
+
+end C19
